@@ -35,6 +35,7 @@ FIXREV = {
     "fixrev-kou-default-dtype": ("C11", ["C11"], "reverse of the fix: generate_kou_jump returns float64 under the float32 default for a double-precision scalar initial state"),
     "fixrev-ww-zero-cost": ("C20", ["C20"], "reverse of the fix: Whalley-Wilmott with zero cost is nan where gamma is infinite (0 * inf)"),
     "fixrev-numpy-step": ("C03", ["C03"], "reverse of the fix: spot / volatility / variance features return all steps for a NumPy-integer step"),
+    "fixrev-moduleoutput-of": ("C16", ["C16"], "reverse of the fix: ModuleOutput.of binds in place, an earlier handle follows the last binding"),
     "fixrev-cir-zero-variance": ("C11", ["C11"], "reverse of the fix: generate_cir / CIRRate NaN when the step has no variance (sigma = 0)"),
 }
 EXTRA = {"C03-B-stale-prev-output": ["C03", "C16"], "C16-B-prev-output-not-rezeroed": ["C16", "C03"], "C04-A-es-ties-at-quantile": ["C04", "C05"],
